@@ -309,14 +309,29 @@ def run(res):
         tag = 1
         base = cfg.start
         writers = {}
+        nextF = wl.F_of(cfg, base) + cfg.fc
+        adjacent = rng.random() < 0.6
         for per, k in enumerate(owner):
-            st = wl.file_start(cfg, wl.F_of(cfg, base) + cfg.fc * (1 + 12 * per)) + rng.choice([0, 1, 2])
+            if adjacent:
+                # the periods follow each other without a hole: a period ends on the last sample of a file and
+                # the next one (often in another directory) starts on the first sample of the next file
+                off = rng.choice([0, 1, 2]) if per == 0 else 0
+                st = wl.file_start(cfg, nextF) + off
+                nfiles = rng.choice([1, 2])
+                nsamp = wl.file_start(cfg, nextF + nfiles * cfg.fc) - st
+                nextF += nfiles * cfg.fc
+                ops = [("w", 0, nsamp, tag), ("c",)]
+                tag += nsamp
+            else:
+                st = wl.file_start(cfg, wl.F_of(cfg, base) + cfg.fc * (1 + 12 * per)) + rng.choice([0, 1, 2])
+                ops = [("w", 0, pf + 1, tag), ("w", pf + 3, 2, tag + pf + 1), ("c",)]
+                tag += pf + 3
             c2 = wl.Cfg(cfg.n, cfg.d, cfg.sc, cfg.fc, st, cfg.cont, cfg.comp, cfg.cksum, cfg.kind, cfg.size, cfg.order, cfg.is_complex, cfg.nsub)
-            ops = [("w", 0, pf + 1, tag), ("w", pf + 3, 2, tag + pf + 1), ("c",)]
-            tag += pf + 3
             reports, w = wl.run_impl(c2, ops, os.path.join(tops[k], "ch"))
             m = wl.abs_of_history(c2, ops, reports)
             exp.update(wl.expected_with_fill(c2, m))
+        if adjacent:
+            res.count("multidir-adjacent-periods")
         order = list(tops)
         rng.shuffle(order)
         empty_at = None
@@ -349,6 +364,36 @@ def run(res):
         if not ok:
             res.violation("multidir-read-differs", "reading over several top-level directories is not the union of their samples", hist,
                           [(a, len(t)) for a, t in want], [(int(k), len(v)) for k, v in sorted(got.items())])
+        # ---- windows: edges of the runs and of the directories' periods, single samples; the block map
+        #      reported without reading data must agree
+        runs = wl.runs_of(exp)
+        pts = sorted({x for a, t in runs for x in (a - 1, a, a + 1, a + len(t) - 2, a + len(t) - 1, a + len(t))} |
+                     {wl.file_start(cfg, wl.F_of(cfg, k) + cfg.fc) + dlt for k in list(exp)[::max(1, len(exp) // 6)] for dlt in (-1, 0)})
+        pts = [x for x in pts if x >= 0]
+        for _ in range(12):
+            a = rng.choice(pts)
+            bnd = rng.choice([a, a, rng.choice(pts), rng.choice(pts)])
+            a, bnd = min(a, bnd), max(a, bnd)
+            want = wl.runs_of(exp, a, bnd)
+            whist = dict(hist, window=[a, bnd])
+            res.count("multidir-window-read")
+            try:
+                got = rd.read(a, bnd, "ch")
+                blocks = rd.get_continuous_blocks(a, bnd, "ch")
+            except Exception as e:  # noqa
+                res.violation("multidir-window-read-fails", "a windowed read over several top-level directories fails", whist,
+                              [(x, len(t)) for x, t in want], repr(e)[:200])
+                continue
+            ok = sorted(int(k) for k in got) == [x for x, _ in want] and all(
+                wl.arrays_equal(cfg, wl.enc(cfg, t), np.asarray(got[x]).reshape(len(t), -1) if not cfg.is_complex else got[x]) for x, t in want)
+            if not ok:
+                res.violation("multidir-window-read-differs", "a windowed read over several top-level directories is not the "
+                              "union of their samples restricted to the window", whist,
+                              [(x, len(t)) for x, t in want], [(int(k), len(v)) for k, v in sorted(got.items())])
+            if [(int(k), int(v)) for k, v in sorted(blocks.items())] != [(x, len(t)) for x, t in want]:
+                res.violation("multidir-window-blocks-differ", "get_continuous_blocks over several top-level directories does not "
+                              "report the blocks of the union restricted to the window", whist,
+                              [(x, len(t)) for x, t in want], [(int(k), int(v)) for k, v in sorted(blocks.items())])
     res.assumptions += ["the same file period is never recorded in two different top-level directories (the format does not allow it)"]
     res.trusted += [T3_TRUST, "Model/WriterCore.v (existing-final refusal, exclusive tmp creation, session restart) is a hand model tied by this correspondence"]
 
